@@ -62,7 +62,7 @@ type ftype struct {
 var schema = map[string]map[string]ftype{
 	"Query": {"a1": {"A", false}, "aNil": {"A", false}, "as": {"A", true}, "u1": {"U", false}, "u2": {"U", false},
 		"uNil": {"U", false}, "us": {"U", true}, "n": {"Int", false}},
-	"A": {"id": {"Int", false}, "x": {"Int", false}, "name": {"String", false}, "b": {"B", false}, "bs": {"B", true},
+	"A": {"id": {"Int", false}, "x": {"Int", false}, "name": {"String", false}, "b": {"B", false}, "bs": {"B", true}, "vbs": {"B", true},
 		"u": {"U", false}, "sq": {"Int", false}},
 	"B": {"id": {"Int", false}, "y": {"Int", false}, "tag": {"String", false}, "a": {"A", false}, "as": {"A", true}},
 }
